@@ -24,23 +24,27 @@ From CJ Require Import Common.Base.
 From Coq Require Import List NArith Bool.
 Import ListNotations.
 
-Inductive mapid := MGen | MTt | MLv.
+(* the three maps of RegistrationStats; the per-ASN maps of the application's connStats (IPv4 / IPv6) *)
+Inductive mapid := MGen | MTt | MLv | MAsn4 | MAsn6.
 
 (* key -> counter value; a key without an entry is a nil pointer on lookup *)
 Definition smap := list (N * N).
 
-Record sstate := mkS { s_gen : smap; s_tt : smap; s_lv : smap }.
+Record sstate := mkS5 { s_gen : smap; s_tt : smap; s_lv : smap; s_a4 : smap; s_a6 : smap }.
 
+Definition mkS (g t l : smap) : sstate := mkS5 g t l [] [].
 Definition s_empty : sstate := mkS [] [] [].
 
 Definition getm (s : sstate) (m : mapid) : smap :=
-  match m with MGen => s_gen s | MTt => s_tt s | MLv => s_lv s end.
+  match m with MGen => s_gen s | MTt => s_tt s | MLv => s_lv s | MAsn4 => s_a4 s | MAsn6 => s_a6 s end.
 
 Definition setm (s : sstate) (m : mapid) (v : smap) : sstate :=
   match m with
-  | MGen => mkS v (s_tt s) (s_lv s)
-  | MTt => mkS (s_gen s) v (s_lv s)
-  | MLv => mkS (s_gen s) (s_tt s) v
+  | MGen => mkS5 v (s_tt s) (s_lv s) (s_a4 s) (s_a6 s)
+  | MTt => mkS5 (s_gen s) v (s_lv s) (s_a4 s) (s_a6 s)
+  | MLv => mkS5 (s_gen s) (s_tt s) v (s_a4 s) (s_a6 s)
+  | MAsn4 => mkS5 (s_gen s) (s_tt s) (s_lv s) v (s_a6 s)
+  | MAsn6 => mkS5 (s_gen s) (s_tt s) (s_lv s) (s_a4 s) v
   end.
 
 Fixpoint sm_get (m : smap) (k : N) : option N :=
@@ -75,10 +79,11 @@ Inductive section :=
   | SEnsureIfMissing (m : mapid) (k : N)  (* region: create it if the remembered lookup missed (no step at all otherwise) *)
   | SInc (m : mapid) (k : N)              (* region: increment through the map *)
   | SRange (m : mapid)                    (* printer: range over the map, read every counter (entries are never nil) *)
-  | SSwap (m : mapid).                    (* Reset: the map is replaced by an empty one *)
+  | SSwap (m : mapid)                     (* Reset: the map is replaced by an empty one *)
+  | SBoth (a b : section).                (* one region doing both, in this order (connStats: one lock for both maps) *)
 
 (* loc: what the thread remembers from its last lookup (true: a usable counter was there) *)
-Definition exec_section (sec : section) (loc : bool) (s : sstate) : result unit (sstate * bool) :=
+Fixpoint exec_section (sec : section) (loc : bool) (s : sstate) : result unit (sstate * bool) :=
   match sec with
   | SEnsureInc m k =>
       match sm_inc (sm_ensure (getm s m) k) k with
@@ -96,6 +101,12 @@ Definition exec_section (sec : section) (loc : bool) (s : sstate) : result unit 
       end
   | SRange _ => Ok (s, loc)
   | SSwap m => Ok (setm s m [], loc)
+  | SBoth a b =>
+      match exec_section a loc s with
+      | Ok (s', l') => exec_section b l' s'
+      | Err e => Err e
+      | Panic => Panic
+      end
   end.
 
 Record thread := mkT { t_loc : bool; t_prog : list section }.
@@ -178,17 +189,26 @@ Definition print_reset_prog : list section := [SRange MGen; SRange MTt; SRange M
 Fixpoint repeat_prog (n : nat) (p : list section) : list section :=
   match n with O => [] | S j => p ++ repeat_prog j p end.
 
+Definition conn_reset_region : section := SBoth (SSwap MAsn4) (SSwap MAsn6).
+
 (* what a goroutine of the station does with the statistics *)
 Inductive tkind :=
   | TWorker (regs : list (N * N * N))   (* an ingest worker: accepted registrations, one after the other *)
   | TReset (n : nat)                     (* n calls of Reset *)
-  | TTicker (n : nat).                   (* the statistics ticker: n epochs of PrintAndReset *)
+  | TTicker (n : nat)                    (* the statistics ticker: n epochs of PrintAndReset *)
+  (* cmd/application connStats: one lock, two per-ASN maps *)
+  | TConn (v4 : bool) (asn : N) (n : nat)   (* n accounting calls of a connection from that ASN (addCreated, createdToCheck, ...) *)
+  | TConnReset (n : nat)                     (* connStats.Reset *)
+  | TConnTicker (n : nat).                   (* connStats.PrintAndReset: print and swap under ONE write lock *)
 
 Definition prog_of (k : tkind) : list section :=
   match k with
   | TWorker regs => flat_map addreg_prog regs
   | TReset n => repeat_prog n reset_prog
   | TTicker n => repeat_prog n print_reset_prog
+  | TConn v4 asn n => repeat_prog n [SEnsureInc (if v4 then MAsn4 else MAsn6) asn]
+  | TConnReset n => repeat_prog n [conn_reset_region]
+  | TConnTicker n => repeat_prog n [SBoth (SRange MAsn4) (SBoth (SRange MAsn6) conn_reset_region)]
   end.
 
 Definition thread_of (k : tkind) : thread := mkT false (prog_of k).
@@ -199,7 +219,7 @@ Definition addreg_split_prog (k : N * N * N) : list section :=
   let '(g, t, l) := k in addreg_split_map MGen g ++ addreg_split_map MTt t ++ addreg_split_map MLv l.
 
 (* a region that cannot fail whatever the other threads did before it: everything except a bare increment *)
-Definition safe_section (sec : section) : bool :=
-  match sec with SInc _ _ => false | _ => true end.
+Fixpoint safe_section (sec : section) : bool :=
+  match sec with SInc _ _ => false | SBoth a b => safe_section a && safe_section b | _ => true end.
 
 Definition safe_thread (t : thread) : bool := forallb safe_section (t_prog t).
